@@ -177,8 +177,8 @@ class Rig:
                 finally:
                     rig.sactive.remove(call)
 
-        cwt, vwt, hsug, maxn = bool(cfg[0]), bool(cfg[1]), bool(cfg[2]), cfg[3]
-        self.b = Buffer(completer=HC(), validator=HV() if vwt else None, auto_suggest=HS() if hsug else None,
+        cwt, hval, vwt, hsug, maxn = bool(cfg[0]), bool(cfg[1]), bool(cfg[2]), bool(cfg[3]), cfg[4]
+        self.b = Buffer(completer=HC(), validator=HV() if hval else None, auto_suggest=HS() if hsug else None,
                         complete_while_typing=cwt, validate_while_typing=vwt,
                         max_number_of_completions=maxn, document=Document(text, cursor),
                         accept_handler=lambda buf: rig.keep_text)
@@ -399,7 +399,7 @@ def group_shape_ok(g):
 def valid_case(case):
     try:
         cfg, text, cur, groups = case
-        if len(cfg) != 4 or any(x not in (0, 1) for x in cfg[:3]) or not isinstance(cfg[3], int):
+        if len(cfg) != 5 or any(x not in (0, 1) for x in cfg[:4]) or not isinstance(cfg[4], int):
             return False
         if not (isinstance(cur, int) and 0 <= cur <= len(text)) or not all(isinstance(c, int) for c in text):
             return False
@@ -668,7 +668,7 @@ RCOMPS = [("ab", -1), ("a", -1), ("abc", -1), ("x", 0), ("", 0), ("b", -1), ("ab
 
 
 def random_case(rng, maxlen):
-    cfg = [rng.randint(0, 1), rng.randint(0, 1), rng.randint(0, 1), rng.choice([10000, 10000, 1, 2, 3])]
+    cfg = [rng.randint(0, 1), rng.choice([0, 1, 1]), rng.randint(0, 1), rng.randint(0, 1), rng.choice([10000, 10000, 1, 2, 3])]
     text = rng.choice(["", "a", "ab", "ab", "a b", "ab\nab", "ab\nabc\n a\nb", "abc\nab\nabd"])
     cur = rng.randint(0, len(text))
     n = rng.randint(3, maxlen)
@@ -735,7 +735,7 @@ def cycle_cases():
                 for k in (n + 2, 2 * n + 3):
                     groups = [[[7, 0]], [[9]]] + ys + ([[[9], [11, 0]]] if loaded else []) + [[[op, 1, 0]]] * k
                     groups += [[[9 - op, 1, 0]]] * (n + 1) + [[[6]]]
-                    out.append([[0, 0, 0, 10000], S("a"), 1, groups])
+                    out.append([[0, 0, 0, 0, 10000], S("a"), 1, groups])
     # every count (negative, zero, beyond the ends) from every selection of a loaded menu of 2 and 3
     for n in (2, 3):
         ys = [[[9], [10, 0, S(comps[i][0]), comps[i][1]]] for i in range(n)]
@@ -745,24 +745,25 @@ def cycle_cases():
                     for nowrap in (0, 1):
                         groups = [[[7, 0]], [[9]]] + ys + [[[9], [11, 0]]] + [[[4, 1, 0]]] * ((sel + 1) % (n + 1))
                         groups += [[[op, cnt, nowrap]], [[6]]]
-                        out.append([[0, 0, 0, 10000], S("a"), 1, groups])
+                        out.append([[0, 0, 0, 0, 10000], S("a"), 1, groups])
     return out
 
 
 # the witness of C15_menu_consistent_pinned_refuted / C15_cancel_pinned_refuted (Props/C15.v): the
 # schedule of finding C15-F1 (repaired by /repo commit 8bc6590), kept as a regression schedule
-WITNESS = [[0, 0, 0, 10000], S("ab"), 2,
+WITNESS = [[0, 0, 0, 0, 10000], S("ab"), 2,
            [[[7, 0]], [[9]], [[9], [10, 0, S("ab"), -2]], [[4, 1, 0]], [[9], [11, 0]], [[6]]]]
 
 MALFORMED = [
-    [[0, 0, 0, 10000], S("a"), 2, []],                                   # cursor beyond the text
-    [[0, 0, 0, 10000], S("a"), -1, []],
-    [[0, 0, 0, 10000], S("a"), 1, [[[6, 1]]]],                           # wrong arity
-    [[0, 0, 0, 10000], S("a"), 1, [[[9], [10, 0, S("a"), 1]]]],          # Completion(start_position > 0)
-    [[0, 0, 0, 10000], S("a"), 1, [[[7, 4]]]],                           # unknown flag
-    [[0, 0, 2, 10000], S("a"), 1, []],
-    [[0, 0, 0, 10000], S("a"), 1, [[[14]]]],
-    [[0, 0, 0, 10000, 0], S("a"), 1, []],                                # a fifth configuration field
+    [[0, 0, 0, 0, 10000], S("a"), 2, []],                                   # cursor beyond the text
+    [[0, 0, 0, 0, 10000], S("a"), -1, []],
+    [[0, 0, 0, 0, 10000], S("a"), 1, [[[6, 1]]]],                           # wrong arity
+    [[0, 0, 0, 0, 10000], S("a"), 1, [[[9], [10, 0, S("a"), 1]]]],          # Completion(start_position > 0)
+    [[0, 0, 0, 0, 10000], S("a"), 1, [[[7, 4]]]],                           # unknown flag
+    [[0, 0, 0, 2, 10000], S("a"), 1, []],
+    [[0, 0, 0, 0, 10000], S("a"), 1, [[[14]]]],
+    [[0, 0, 0, 0, 10000, 0], S("a"), 1, []],                             # a sixth configuration field
+    [[0, 0, 0, 10000], S("a"), 1, []],                                   # the four-field configuration of earlier rounds
 ]
 
 
@@ -772,14 +773,15 @@ def gen_batches(chk):
     thorough = chk.tier == "thorough"
     yes = lambda i: True  # noqa
     fams = [
-        ("comp/start(common),mixed", [0, 0, 0, 10000], "ab", 1, "comp",
+        ("comp/start(common),mixed", [0, 0, 0, 0, 10000], "ab", 1, "comp",
          [("S3", G_user([7, 3]), yes), ("Y3", G_sched([10, 0, S("Ab"), -1]), lambda i: i["c"] > 0)], 6 if thorough else 5),
-        ("comp/start(plain)", [0, 0, 0, 10000], "ab", 1, "comp", [("S0", G_user([7, 0]), yes)], 5 if thorough else 4),
-        ("comp/start(first)", [0, 0, 0, 10000], "ab", 1, "comp", [("S1", G_user([7, 1]), yes)], 5 if thorough else 4),
-        ("comp/start(last),max=2", [0, 0, 0, 2], "ab", 1, "comp", [("S2", G_user([7, 2]), yes)], 5 if thorough else 4),
-        ("comp/while-typing", [1, 0, 0, 10000], "ab", 1, "comp", [("S3", G_user([7, 3]), yes)], 5 if thorough else 4),
-        ("validate+suggest+accept", [0, 1, 1, 10000], "ab", 1, "val", [], 5 if thorough else 4),
-        ("everything", [1, 1, 1, 10000], "ab", 1, "all", [("S1", G_user([7, 1]), yes)], 4 if thorough else 3),
+        ("comp/start(plain)", [0, 0, 0, 0, 10000], "ab", 1, "comp", [("S0", G_user([7, 0]), yes)], 5 if thorough else 4),
+        ("comp/start(first)", [0, 0, 0, 0, 10000], "ab", 1, "comp", [("S1", G_user([7, 1]), yes)], 5 if thorough else 4),
+        ("comp/start(last),max=2", [0, 0, 0, 0, 2], "ab", 1, "comp", [("S2", G_user([7, 2]), yes)], 5 if thorough else 4),
+        ("comp/while-typing", [1, 0, 0, 0, 10000], "ab", 1, "comp", [("S3", G_user([7, 3]), yes)], 5 if thorough else 4),
+        ("validate+suggest+accept", [0, 1, 1, 1, 10000], "ab", 1, "val", [], 5 if thorough else 4),
+        ("validator, not while typing", [0, 1, 0, 0, 10000], "ab", 1, "val", [], 5 if thorough else 4),
+        ("everything", [1, 1, 1, 1, 10000], "ab", 1, "all", [("S1", G_user([7, 1]), yes)], 4 if thorough else 3),
     ]
     fixed = load_corpus(PROP) + cycle_cases() + [WITNESS] + MALFORMED
     yield "corpus+cycle+witness+malformed", fixed
@@ -862,7 +864,7 @@ def main(tier):
                 j, (clause, tags) = fv
                 oracle_bad.add(i)
                 sched = [group_str(g) for g in c[3][:j + 1]]
-                chk.violation("oracle", "%s  [config cwt/vwt/suggest/max=%r text=%r cursor=%d schedule=%s -> %s]" % (
+                chk.violation("oracle", "%s  [config cwt/validator/vwt/suggest/max=%r text=%r cursor=%d schedule=%s -> %s]" % (
                     clause, c[0], unS(c[1]), c[2], " ; ".join(sched), describe_obs(trace[j][2])),
                     tags, {"case": [c[0], c[1], c[2], c[3][:j + 1]], "clause": clause, "schedule": sched,
                            "observed": describe_obs(trace[j][2]),
@@ -921,7 +923,8 @@ def main(tier):
         "code between two awaits runs atomically (asyncio single-threaded semantics); thread executors (ThreadedCompleter etc.) are outside the model",
         "refresh_while_loading, on_* event handlers, invalidate() and the 0.3 s refresh timer are not modelled (they do not write the observed attributes)",
         "the real loop starts created tasks FIFO, all at the next iteration; the theorems also cover any other start order (StartTask i), which is not replayed",
-        "synchronous validate(), history navigation, undo and other Buffer methods are outside the label alphabet",
+        "history navigation, undo, selection and the Buffer methods not named in Model/C15_Async.v's label type are outside the label alphabet "
+        "(synchronous validate(), validate_and_handle and reset() are inside: labels Validate, ValidateAndHandle, Reset)",
     ]
     return chk.finish()
 
@@ -946,7 +949,7 @@ def replay(data):
         return 0
     out, trace, _ = impl_case(case)
     rc = 0
-    print("config cwt/vwt/suggest/max = %r  text=%r cursor=%d" % (case[0], unS(case[1]), case[2]))
+    print("config cwt/validator/vwt/suggest/max = %r  text=%r cursor=%d" % (case[0], unS(case[1]), case[2]))
     for g, ob, oa in trace:
         bad = oracle_step(g, ob, oa)
         print("  %-34s -> %s   %s" % (group_str(g), describe_obs(oa), "ORACLE FAILS: " + bad[0] if bad else "oracle ok"))
